@@ -21,8 +21,8 @@ import (
 
 func init() {
 	register(&Prop{
-		ID:    "C12",
-		Title: "Routers deliver each request to the client registered under its name",
+		ID:          "C12",
+		Title:       "Routers deliver each request to the client registered under its name",
 		Explanation: "R12.1 every checked-in *_router.pb.go and *_wrap.pb.go is an instance of the current template: the template file is rendered inside the checker with a model rebuilt from type information (names from the file's own compile-time assertion, methods and their streaming shape from the service's Server interface in declaration order) and compared with the file as go/scanner token streams (imports excluded). R12.2 for every go:generate directive under pkg/trait every service of the named proto has a router and a wrapper in that package and the router declares (does not inherit) every RPC of the service with the interface's signature. R12.3 forwarding semantics of every router method on SSA: lookup by request.Name, lookup errors returned untouched, the same request forwarded to the same method, unary results returned as is; streams run on a context derived from the caller's stream, forward the header before the first message, forward each received message itself, set the trailer, map io.EOF to nil and cancel the child when the caller cannot be sent to. R12.4 the registry's decision tables (Add returns the previous client, Remove the removed one and deletes only what is present, Get: registry, then fallback, then factory with a re-check under the exclusive lock, Auto change only when inserted, miss is NotFound) with callbacks and factories invoked under no lock. R12.5 replaceEmptyNameField sets the name only on the path where the message has a string field `name` whose value is empty. R12.4 also: the error returned with a found client is nil or that lookup's own error result. R12.6 both generators execute the service template in every iteration over a file's services. Does NOT decide the behaviour of generated gRPC client/stream code or of protoc, nor that the generators' main.go would emit these bytes (they are not run; file naming and import layout are outside the comparison).",
 		Assumptions: []string{"text/template semantics; the template model mirrors cmd/protoc-gen-router/main.go newServiceModel and cmd/protoc-gen-wrapper/main.go", "grpc ClientStream/ServerStream contracts"},
 		Run:         runC12,
@@ -742,7 +742,9 @@ func checkForwarder(c *an.Ctx, fn *ssa.Function, ri routerInfo, m svcMethod) str
 		return false
 	}
 	if t, _ := (an.PathQuery{Target: func(in ssa.Instruction) bool { _, isR := in.(*ssa.Return); return isR },
-		Avoid: func(in ssa.Instruction) bool { return in == ssa.Instruction(trailer) || isCancelCall(in) || in == ssa.Instruction(send) }}).From(fn, recv); t != nil {
+		Avoid: func(in ssa.Instruction) bool {
+			return in == ssa.Instruction(trailer) || isCancelCall(in) || in == ssa.Instruction(send)
+		}}).From(fn, recv); t != nil {
 		return "a path on which the child ended the stream returns without reading the child's trailer: trailer metadata of streams that end with an error status is lost"
 	}
 	cancelled := false
@@ -930,15 +932,53 @@ func r124as(c *an.Ctx, rule string) {
 		}
 		c.Check(ok, rule, "(*pkg/router.router).Has|agrees with the registry", fn.Pos(), "", "Has does not return whether the registry holds the name")
 	}
+	var lookupHelper *ssa.Function
 	// Get
 	if fn := mustFunc(c, rule, "pkg/router", "router", "Get"); fn != nil {
 		name := "(*pkg/router.router).Get"
-		leaves := an.DecisionTree(fn, an.DTConfig{Names: map[ssa.Value]string{fn.Params[0]: "r", fn.Params[1]: "name"}})
+		// the helper that asks a Factory for a client (invoke(name, f), or whatever it has become: a method of Factory…)
+		// stays an atom of the table and is checked on its own below
+		an.Instrs(fn, func(in ssa.Instruction) {
+			call, ok := in.(*ssa.Call)
+			if !ok {
+				return
+			}
+			h := call.Call.StaticCallee()
+			if h == nil || !an.InModule(h) || h.Signature.Results().Len() != 3 {
+				return
+			}
+			for _, a := range call.Call.Args {
+				if _, _, f, isF := an.FieldOf(a); isF && (f == "fallback" || f == "factory") {
+					lookupHelper = h
+				}
+				for _, s0 := range an.ValuesAt(a) {
+					if _, _, f, isF := an.FieldOf(s0); isF && (f == "fallback" || f == "factory") {
+						lookupHelper = h
+					}
+				}
+			}
+		})
+		leaves := an.DecisionTree(fn, an.DTConfig{Names: map[ssa.Value]string{fn.Params[0]: "r", fn.Params[1]: "name"},
+			Inline: func(caller, callee *ssa.Function) bool {
+				return callee != lookupHelper && an.InlineNewHelpers(caller, callee)
+			}})
 		c.Count("table_rows", len(leaves))
-		const (
+		lookupCall := func(field string) string {
+			for _, l := range leaves {
+				for _, cl := range l.Calls {
+					if strings.Contains(cl, "r."+field) && strings.Contains(cl, "(") && !strings.HasPrefix(cl, "r.onChange") && !strings.HasPrefix(cl, "mapupdate") && !strings.HasPrefix(cl, "store ") {
+						return cl
+					}
+				}
+			}
+			return "pkg/router.invoke(name, r." + field + ")"
+		}
+		fbCall, facCall := lookupCall("fallback"), lookupCall("factory")
+		callOf := map[string]string{"fallback": fbCall, "factory": facCall}
+		var (
 			reg  = "r.registry[name]#1"
-			fb   = "call pkg/router.invoke(name, r.fallback)#1"
-			fac  = "call pkg/router.invoke(name, r.factory)#1"
+			fb   = "call " + fbCall + "#1"
+			fac  = "call " + facCall + "#1"
 			reg2 = "@2 r.registry[name]#1"
 		)
 		type agg struct {
@@ -964,26 +1004,26 @@ func r124as(c *an.Ctx, rule string) {
 				return
 			}
 			calls := strings.Join(l.Calls, " ; ")
-			usedFallback := strings.Contains(calls, "invoke(name, r.fallback)")
-			usedFactory := strings.Contains(calls, "invoke(name, r.factory)")
+			usedFallback := strings.Contains(calls, fbCall)
+			usedFactory := strings.Contains(calls, facCall)
 			stored := strings.Contains(calls, "mapupdate r.registry[name]=")
 			cb := strings.Count(calls, "r.onChange(")
 			// the error that goes with a client that was found: nil, or the error result of the very lookup that found
 			// it (nil there by invoke's definition) - not one left over from a lookup that failed
 			errOf := func(which string) bool {
-				return l.Returns[1].K == "nil" || l.Returns[1].S == "call pkg/router.invoke(name, r."+which+")#2"
+				return l.Returns[1].K == "nil" || l.Returns[1].S == "call "+callOf[which]+"#2"
 			}
 			switch {
 			case l.Get(reg) == "true":
 				rec("registered: returned, nothing else touched", l.Returns[0].S == "r.registry[name]#0" && l.Returns[1].K == "nil" && !usedFallback && !usedFactory && !stored && cb == 0, "registered client: returns ("+l.Returns[0].S+", "+l.Returns[1].S+"), calls "+calls)
 			case l.Get(fb) == "true":
-				rec("fallback before factory, not remembered", strings.Contains(l.Returns[0].S, "r.fallback)#0") && errOf("fallback") && !usedFactory && !stored && cb == 0, "fallback hit: returns ("+l.Returns[0].S+", "+l.Returns[1].S+"), calls "+calls)
+				rec("fallback before factory, not remembered", l.Returns[0].S == "call "+fbCall+"#0" && errOf("fallback") && !usedFactory && !stored && cb == 0, "fallback hit: returns ("+l.Returns[0].S+", "+l.Returns[1].S+"), calls "+calls)
 			case l.Get(fac) == "true" && l.Get(reg2) == "true":
 				rec("factory product discarded when a concurrent Get committed first", l.Returns[0].S == "@2 r.registry[name]#0" && errOf("factory") && !stored && cb == 0 && usedFallback, "lost race: returns ("+l.Returns[0].S+", "+l.Returns[1].S+"), stored="+fmt.Sprint(stored))
 			case l.Get(fac) == "true" && l.Get(reg2) == "false":
 				okAuto := true
 				for _, r := range l.Recs {
-					if r.Callee == "r.onChange" && !(strings.Contains(r.Args[0].S, "Auto:true") && strings.Contains(r.Args[0].S, "New:call pkg/router.invoke(name, r.factory)#0") && strings.Contains(r.Args[0].S, "Name:name")) {
+					if r.Callee == "r.onChange" && !(strings.Contains(r.Args[0].S, "Auto:true") && strings.Contains(r.Args[0].S, "New:call "+facCall+"#0") && strings.Contains(r.Args[0].S, "Name:name")) {
 						okAuto = false
 					}
 				}
@@ -1004,7 +1044,7 @@ func r124as(c *an.Ctx, rule string) {
 						unlockIdx = i
 					}
 				}
-				rec("factory product committed once under the exclusive lock, reported as Auto", stored && lockIdx >= 0 && lockIdx < storeIdx && storeIdx < unlockIdx && cb == wantCb && okAuto && strings.Contains(l.Returns[0].S, "r.factory)#0") && errOf("factory") && usedFallback,
+				rec("factory product committed once under the exclusive lock, reported as Auto", stored && lockIdx >= 0 && lockIdx < storeIdx && storeIdx < unlockIdx && cb == wantCb && okAuto && l.Returns[0].S == "call "+facCall+"#0" && errOf("factory") && usedFallback,
 					fmt.Sprintf("factory hit: stored=%v lock/store/unlock=%d/%d/%d callbacks=%d autoChange=%v returns (%s, %s) - a client that was created must not come with the error of the fallback that failed before it", stored, lockIdx, storeIdx, unlockIdx, cb, okAuto, l.Returns[0].S, l.Returns[1].S))
 			case l.Get(fac) == "false":
 				rec("miss: NotFound, nothing stored", l.Returns[0].K == "nil" && strings.Contains(l.Returns[1].S, fmt.Sprintf("status.Error(%d,", an.CodeNotFound)) && !stored && cb == 0 && usedFallback && usedFactory, "miss returns ("+l.Returns[0].S+", "+l.Returns[1].S+")")
@@ -1023,8 +1063,20 @@ func r124as(c *an.Ctx, rule string) {
 		}
 	}
 	// invoke: exists iff child != nil && err == nil
-	if fn := mustFunc(c, rule, "pkg/router", "", "invoke"); fn != nil {
-		leaves := an.DecisionTree(fn, an.DTConfig{Names: map[ssa.Value]string{fn.Params[0]: "name", fn.Params[1]: "f"}})
+	helper := lookupHelper
+	if helper == nil {
+		helper = mustFunc(c, rule, "pkg/router", "", "invoke")
+	}
+	if fn := helper; fn != nil && len(fn.Params) == 2 {
+		names := map[ssa.Value]string{}
+		for _, p := range fn.Params {
+			if strings.HasSuffix(an.NamedTypeName(p.Type()), "/pkg/router.Factory") {
+				names[p] = "f"
+			} else {
+				names[p] = "name"
+			}
+		}
+		leaves := an.DecisionTree(fn, an.DTConfig{Names: names})
 		ok := len(leaves) > 0
 		for _, l := range leaves {
 			if l.Undec != "" {
